@@ -1857,11 +1857,11 @@ def plan(tier, seed):
               (b0, "glpk_exact", "core", 2, 1), (b1, "glpk", "core", 2, 1)]
         rnd = ([b0, b1, b2] + gen_bases(seed, 5), 64, 48, 6)
     else:
-        ex = [(b0, "glpk", "core", 3, 0), (b1, "glpk_exact", "core", 3, 0), (b0, "glpk_exact", "core", 3, 1)]
+        ex = [(b0, "glpk", "core", 3, 0), (b0, "glpk_exact", "core", 3, 1)]
         for b, sv in ((b0, "glpk"), (b0, "glpk_exact"), (b1, "glpk"), (b1, "glpk_exact"), (b2, "glpk")):
             ex.append((b, sv, "full", 2, 0))
         ex += [(b0, "glpk", "full", 2, 1), (b1, "glpk_exact", "quick", 2, 2), (b1, "glpk", "core", 2, 1)]   # contains the quick plan
-        rnd = ([b0, b1, b2] + gen_bases(seed, 24), 192, 250, 8)
+        rnd = ([b0, b1, b2] + gen_bases(seed, 24), 128, 250, 8)
     return ex, rnd
 
 
@@ -2007,3 +2007,32 @@ def replay(payload):
     _FF_CACHE.clear()
     f = first_failure(payload["base"], payload["solver"], payload["history"], payload["mode"])
     return None if f is None else f"{refine(f[0], payload['history'][:f[2] + 1])}: {f[1]}"
+
+
+def write_known(modes=("C01", "C02"), tiers=("quick", "thorough"), seed=0, out_dir=None):
+    """(re)generate bcc/drivers/KNOWN_<mode>.json = {class key: [deterministic witnesses of the given tiers ..., "random:<class>"]}
+    for the tree that is currently imported as `cobra`"""
+    import os
+    out_dir = out_dir or os.path.join(os.path.dirname(os.path.abspath(__file__)), "drivers")
+    for mode in modes:
+        merged = {}
+        for tier in tiers:
+            res = explore(mode, tier, seed)
+            for key, wits in known_lists(res).items():
+                merged.setdefault(key, set()).update(w for w in wits if not w.startswith("random:"))
+            print(f"{mode} {tier}: {res['evaluations']} histories, {res['bounds']['wall_seconds']} s wall, "
+                  f"{res['bounds']['worker_cpu_seconds']} s cpu, {sum(len(v) for v in merged.values())} witnesses so far", flush=True)
+        final = {k: sorted(v) + ["random:" + k] for k, v in sorted(merged.items())}
+        with open(os.path.join(out_dir, f"KNOWN_{mode}.json"), "w") as fh:
+            json.dump(final, fh, indent=1, sort_keys=True)
+            fh.write("\n")
+
+
+if __name__ == "__main__":
+    import sys
+    if len(sys.argv) >= 2 and sys.argv[1] == "known":
+        # python -m bcc.histories_c01c02 known [C01,C02] [quick,thorough]
+        write_known(tuple(sys.argv[2].split(",")) if len(sys.argv) > 2 else ("C01", "C02"),
+                    tuple(sys.argv[3].split(",")) if len(sys.argv) > 3 else ("quick", "thorough"))
+    else:
+        print("usage: python -m bcc.histories_c01c02 known [C01,C02] [quick,thorough]")
